@@ -125,7 +125,9 @@ def check_model_results(ctx, names, ideal_res, dev_res, sim_res):
     if sim_res is not None:
         if sim_res.violated:
             raise vf.Infra("ideal System spec violates %s in simulation on 4 agents (specification error)" % sim_res.violated)
-        out["simulation"] = {"states": sim_res.generated}
+        import re
+        m = re.search(r"The number of states generated: (\d+)", sim_res.out)
+        out["simulation"] = {"states": int(m.group(1)) if m else sim_res.generated, "walks": 1500, "depth": 120, "agents": 4}
     return out
 
 
@@ -190,4 +192,4 @@ def stuck_index(v):
 
 
 def brief(e):
-    return {k: v for k, v in e.items() if k not in ("st", "parked", "links") or (k in ("parked", "links") and v)}
+    return {k: v for k, v in e.items() if k not in ("st", "parked", "links", "held") or (k in ("parked", "links", "held") and v)}
